@@ -23,7 +23,9 @@
 
 #include <map>
 
+#include <dlfcn.h>
 #include <signal.h>
+#include <string.h>
 
 #include "oomd/Log.h"
 #include "oomd/Oomd.h"
@@ -296,6 +298,16 @@ void runScenario(const Json::Value& sc, Json::Value& out) {
 } // namespace
 
 extern "C" {
+// Oomd::updateContext (main_loop mode) parses /proc/swaps and insists on its own idea of the format; what the host's file looks
+// like is none of the scenario's business: it reads as empty here (no swap)
+FILE* fopen64(const char* path, const char* mode) {
+  using fn = FILE* (*)(const char*, const char*);
+  static fn real = (fn)dlsym(RTLD_NEXT, "fopen64");
+  if (path && strcmp(path, "/proc/swaps") == 0) return real("/dev/null", mode);
+  return real(path, mode);
+}
+FILE* fopen(const char* path, const char* mode) { return fopen64(path, mode); }
+
 int pthread_kill(pthread_t, int) { return 0; }
 
 int sigtimedwait(const sigset_t*, siginfo_t*, const struct timespec*) {
